@@ -14,7 +14,7 @@ VARIABLES expPre, expOut
 
 ToSet(s) == {s[i] : i \in DOMAIN s}
 AllowIds == IF "ALLOW" \in DOMAIN IOEnv THEN IOEnv.ALLOW ELSE ""
-KnownIds == {"KF-C05-notlonger", "KF-C09-rollback-number", "KF-C16-txheight", "KF-C06-blockhash", "KF-C03-stale-before-start", "KF-C04-spanning-record", "KF-C14-envelope"}
+KnownIds == {"KF-C05-notlonger", "KF-C09-rollback-number", "KF-C16-txheight", "KF-C06-blockhash", "KF-C03-stale-before-start", "KF-C04-spanning-record", "KF-C06-foreign-branch", "KF-C14-envelope"}
 Allow == {id \in KnownIds : \E i \in 1..(Len(AllowIds) - Len(id) + 1) : SubSeq(AllowIds, i, i + Len(id) - 1) = id}
 Prop == IF "PROP" \in DOMAIN IOEnv THEN IOEnv.PROP ELSE "C03"
 
@@ -120,6 +120,11 @@ CpNotBlocked(honest, leaf) ==
 \* the latest hashes stored for peer p / the cached hashes are the true ones of the chain ending in block t
 LatestTrue(p, t) == \A i \in 1..Len(pf[p].latest[2]) : pf[p].latest[2][i] = AncAt(world, t, pf[p].latest[1] + i)
 CachedTrue(t) == \A i \in 1..Len(cached[2]) : cached[2][i] = AncAt(world, t, cached[1] * Interval + i)
+\* ... and so are the check points the answer is compared with (after a reorganisation across a check point they
+\* are those of the abandoned branch: final check points are never revised)
+CpsTrueFor(p, t) ==
+    /\ \A i \in 1..Len(CpVals(pf[p].cps)) : CpVals(pf[p].cps)[i] = AncAt(world, t, (CpStart(pf[p].cps) + i - 1) * Interval)
+    /\ \A i \in 1..Len(cpFinal) : cpFinal[i] = AncAt(world, t, (i - 1) * Interval)
 
 QuiescentEv(a) ==
     /\ UNCHANGED psCore /\ PipeUnchanged
@@ -171,7 +176,7 @@ Step(r) ==
                                  /\ RecvFilterHashes(r.a.p, [start |-> r.a.start, parent |-> r.a.parent, hs |-> r.a.hs])
                                  \* an honest answer to the client's own request is never punished
                                  \* (unless it contradicts what the peer itself made the client store before)
-                                 /\ (r.a.kind = "honest" /\ LatestTrue(r.a.p, r.a.tip) /\ CachedTrue(r.a.tip)) => out'.ban = {}
+                                 /\ (r.a.kind = "honest" /\ LatestTrue(r.a.p, r.a.tip) /\ CachedTrue(r.a.tip) /\ CpsTrueFor(r.a.p, r.a.tip)) => out'.ban = {}
       [] r.ev = "Filters"    -> /\ RecvFilters(r.a.p, [start |-> r.a.start, fs |-> r.a.fs, hs |-> r.a.hs])
                                 \* progress moves the cached hashes to the interval of the new position, and the next batch is
                                 \* requested exactly when the hashes to check it against are there
@@ -180,7 +185,7 @@ Step(r) ==
                                      /\ LET asked == {m.start : m \in {x \in ToSet(r.out.sent) : x.kind = "GetBlockFilters"}}
                                         IN IF CouldRequestMore(minF') THEN asked = {minF' + 1} ELSE asked = {}
                                 /\ minF' = minF => cached' = cached
-                                /\ (subst' # subst => PrintT(<<"KNOWN-FINDING", "KF-C06-blockhash", subst' \ subst>>))
+                                /\ ({x \in subst' \ subst : x < ForeignBase} # {} => PrintT(<<"KNOWN-FINDING", "KF-C06-blockhash", {x \in subst' \ subst : x < ForeignBase}>>))
       [] r.ev = "BlocksProof" -> BlocksProofEv(r.a)
       [] r.ev = "Block"      -> RecvBlock(r.a.p, r.a.b, r.a.body)
       [] r.ev = "Quiescent"  -> QuiescentEv(r.a)
@@ -243,7 +248,7 @@ ExpStep(r) ==
             /\ expOut' = expOut \cup {Core'} /\ UNCHANGED expPre
 
 TraceInit ==
-    /\ TLCSet(43, 0) /\ TLCSet(44, 0)
+    /\ TLCSet(43, 0) /\ TLCSet(44, 0) /\ TLCSet(45, 0)
     /\ expPre = <<>> /\ expOut = {}
     /\ l = 1
     /\ LET r == Rec[1] IN
@@ -298,7 +303,7 @@ TraceInv ==
     /\ TypeOK /\ LastNAncestors /\ ProvedAreValid
     /\ (tip # Genesis => TipTruthful)
     /\ NoForgedData
-    /\ MatchedAtRightHeight
+    /\ MatchedAtRightHeight /\ FiltersOfOwnChain
     /\ NoOrphanFetch
     /\ FetchedTruthful
 
